@@ -104,6 +104,12 @@ mod c19 {
         }
         kani::cover!(n == 1);
     }
+
+    #[cfg(test)]
+    mod replay {
+        use super::*;
+        include!("/verif/replays/active/ext_radicle_c19.rs");
+    }
 }
 
 #[cfg(kani)]
@@ -218,6 +224,79 @@ mod c21 {
             Err(e) => std::mem::forget(e),
         }
     }
+    /// `multibase::decode` (base-58 big-number loops; makes the Kani compiler panic, DESIGN §8) is
+    /// replaced by an arbitrary answer: an error, or a decoded payload of `LEN` symbolic bytes.  What
+    /// is checked is the rest of `PublicKey::from_str` / `Did::decode`: whatever the base layer
+    /// decodes to, parsing returns a key or an error and never panics; a key is returned only for a
+    /// 34-byte payload with the ed25519 multicodec prefix, and then it is exactly those 32 bytes.
+    static mut PAYLOAD_LEN: usize = 0;
+    static mut PAYLOAD: [u8; 34] = [0; 34];
+    static mut DECODE_FAILS: bool = false;
+
+    fn multibase_decode_stub<T: AsRef<str>>(_input: T) -> multibase::Result<(multibase::Base, Vec<u8>)> {
+        if unsafe { DECODE_FAILS } {
+            return Err(multibase::Error::InvalidBaseString);
+        }
+        let n = unsafe { PAYLOAD_LEN };
+        let p = unsafe { PAYLOAD };
+        // concrete length per harness instance, symbolic content
+        let mut v = Vec::with_capacity(34);
+        let mut i = 0;
+        while i < n {
+            v.push(p[i]);
+            i += 1;
+        }
+        Ok((multibase::Base::Base58Btc, v))
+    }
+
+    fn public_key_parse<const LEN: usize>() {
+        use radicle::crypto::PublicKey;
+        let p: [u8; 34] = kani::any();
+        unsafe {
+            PAYLOAD = p;
+            PAYLOAD_LEN = LEN;
+            DECODE_FAILS = kani::any();
+        }
+        // Under the model checker the text is irrelevant (the base layer is stubbed); in a native
+        // replay (stubs are not applied) the text is the real multibase encoding of the same payload,
+        // or a string the real base layer rejects.
+        #[cfg(not(test))]
+        let text = String::from("z");
+        #[cfg(test)]
+        let text = if unsafe { DECODE_FAILS } { String::from("!") } else { multibase::encode(multibase::Base::Base58Btc, &p[..LEN]) };
+        let r = PublicKey::from_str(&text);
+        std::mem::forget(text);
+        match r {
+            Ok(k) => {
+                assert!(LEN == 34 && p[0] == 0xED && p[1] == 0x01 && unsafe { !DECODE_FAILS }, "C21: a public key was parsed from a payload that is not multicodec ed25519 + 32 bytes");
+                let mut i = 0;
+                while i < 32 {
+                    assert!(k.as_ref()[i] == p[2 + i], "C21: parsed key bytes differ from the decoded payload");
+                    i += 1;
+                }
+            }
+            Err(e) => std::mem::forget(e),
+        }
+        kani::cover!(true);
+    }
+
+    macro_rules! pk {
+        ($name:ident, $len:expr) => {
+            #[kani::proof]
+            #[kani::unwind(40)]
+            #[kani::stub(multibase::decode, multibase_decode_stub)]
+            fn $name() {
+                public_key_parse::<{ $len }>()
+            }
+        };
+    }
+    pk!(c21_public_key_payload_len0, 0);
+    pk!(c21_public_key_payload_len1, 1);
+    pk!(c21_public_key_payload_len2, 2);
+    pk!(c21_public_key_payload_len3, 3);
+    pk!(c21_public_key_payload_len33, 33);
+    pk!(c21_public_key_payload_len34, 34);
+
     #[kani::proof]
     #[kani::unwind(10)]
     fn c21_user_agent_len5() {
@@ -233,10 +312,10 @@ mod c21 {
     fn c21_user_agent_len3() {
         user_agent::<3>()
     }
-}
 
-#[cfg(all(kani, test))]
-mod replay {
-    use super::*;
-    include!("/verif/replays/active/ext_radicle.rs");
+    #[cfg(test)]
+    mod replay {
+        use super::*;
+        include!("/verif/replays/active/ext_radicle_c21.rs");
+    }
 }
